@@ -436,6 +436,17 @@ def check_fit(ctx, repo, out, cls, bool_typed, eval_score_key, signs):
             else:
                 out.add(scen, "undecided", "R1", "%s.fit:rank-direction" % D, "conditional selection not understood: %s" % show(bi), loc_bi)
         else:
+            core_bi = bi
+            while is_call(core_bi) and isinstance(core_bi.a[0], T) and core_bi.a[0].op == "fn" and core_bi.a[0].a[0] in ("builtins.int", "numpy.int64") \
+                    and len(core_bi.a[1]) == 1:
+                core_bi = core_bi.a[1][0]
+            tol = [x for x in subterms(core_bi) if is_call(x) and isinstance(x.a[0], T) and x.a[0].op == "fn"
+                   and x.a[0].a[0] in ("numpy.isclose", "math.isclose", "numpy.allclose")]
+            if is_mcall(core_bi) and core_bi.a[0].a[1] in MIN_SEL + MAX_SEL and tol and contains(core_bi.a[0].a[0], tol[0]):
+                out.add(scen, "violation", "R1", "%s.fit:best-index-selects-rank-1" % D,
+                        "best_index_ is the first candidate whose score is within the tolerance of %s (absolute atol=1e-8 by default) of the best "
+                        "score, not the best candidate: with scores of that magnitude the first grid entry wins whatever its rank"
+                        % tol[0].a[0].a[0], loc_bi, "tolerance-tie")
             out.add(scen, "undecided", "R1", "%s.fit:rank-direction" % D, "best_index_ is not an arg-min/arg-max: %s" % show(bi), loc_bi)
 
     # ------------------------------------------------ candidates (needed by R1 column check and R3)
@@ -516,11 +527,50 @@ def check_fit(ctx, repo, out, cls, bool_typed, eval_score_key, signs):
                 agg = agg.a[0]
             out.check(scen, pentry == elem if pentry is not None else False, "R3", "%s.fit:row-params" % D, "row['params'] is the candidate",
                       "row['params'] is %s, not the evaluated candidate" % (show(pentry) if pentry is not None else "missing"), L(ev), vkey="params")
-            chain = []
-            t = agg
-            while is_mcall(t) and t != ev.term:
-                chain.append(t)
-                t = t.a[0].a[0]
+            # every way the row is derived from the evaluate() table: method chain, with joins (phi) and row selections made explicit
+            def chains(t, depth=0):
+                if t == ev.term:
+                    return [[]]
+                if depth > 12 or not isinstance(t, T):
+                    return None
+                if t.op == "phi":
+                    res = []
+                    for x in t.a[0]:
+                        r_ = chains(x, depth + 1)
+                        if r_ is None:
+                            return None
+                        res.extend(r_)
+                    return res
+                if is_mcall(t):
+                    r_ = chains(t.a[0].a[0], depth + 1)
+                    return None if r_ is None else [c + [("m", t)] for c in r_]
+                if t.op == "sub" and isinstance(t.a[0], T) and t.a[0].op == "attr" and t.a[0].a[1] in ("iloc", "loc"):
+                    idx = t.a[1]
+                    cols_only = isinstance(idx, T) and idx.op == "tuple" and len(idx.a[0]) == 2 and isinstance(idx.a[0][0], T) \
+                        and idx.a[0][0].op == "slice" and idx.a[0][0].a == (None, None, None)
+                    r_ = chains(t.a[0].a[0], depth + 1)
+                    return None if r_ is None else [c + [("cols" if cols_only else "rows", t)] for c in r_]
+                return None
+
+            allc = chains(agg)
+            ROW_DROPPERS = ("head", "tail", "sample", "dropna", "query", "drop_duplicates", "nlargest", "nsmallest", "truncate")
+            if allc:
+                partial = []
+                for c in allc:
+                    seen_mean = False
+                    for kind, term in c:
+                        if kind == "m" and term.a[0].a[1] in ("mean", "median", "sum", "min", "max"):
+                            seen_mean = True
+                        if not seen_mean and (kind == "rows" or (kind == "m" and term.a[0].a[1] in ROW_DROPPERS)):
+                            partial.append(show(term.a[1]) if kind == "rows" else term.a[0].a[1] + "()")
+                out.check(scen, not partial, "R3", "%s.fit:aggregate:all-folds" % D, "every fold of the evaluate() table enters the aggregate",
+                          "on some path folds are removed (%s) before the aggregate: the row is not the mean over all splits and differs from an "
+                          "independent evaluate() run" % ", ".join(sorted(set(partial)))[:120], L(ev), vkey="not-all-folds")
+                longest = max(allc, key=len)
+                chain = [term for kind, term in reversed(longest) if kind == "m"]
+                t = ev.term
+            else:
+                chain, t = [], None
             names = [c.a[0].a[1] for c in reversed(chain)]
             if t != ev.term:
                 out.add(scen, "undecided", "R3", "%s.fit:aggregate" % D, "row is not derived from the evaluate() result by method calls", L(ev))
@@ -562,7 +612,25 @@ def check_fit(ctx, repo, out, cls, bool_typed, eval_score_key, signs):
                               L(ev), vkey="column")
             # generator
             cands = strip_list(elem.a[0])
-            if is_call(cands) and isinstance(cands.a[0], T) and cands.a[0].op == "fn" and cands.a[0].a[0] in GENERATORS:
+            if isinstance(cands, T) and cands.op == "attr" and cands.a[0] == SELF:
+                # candidates read from an attribute: where is it established?  (H4: must not be a copy frozen in __init__)
+                hit = repo.lookup_method(cls, "__init__")
+                frozen = None
+                if hit is not None:
+                    it0 = Interp(repo, policy=lambda kind, name, target, fr: kind == "super" and name == "__init__")
+                    r0 = it0.run(hit[0].module, hit[1], {}, cls=cls, defcls=hit[0])
+                    vals = {st.heap.get(cands.a[1]) for st, _ in r0.returns}
+                    if len(vals) == 1:
+                        frozen = vals.pop()
+                if is_call(frozen) and isinstance(frozen.a[0], T) and frozen.a[0].op == "fn" and frozen.a[0].a[0] in GENERATORS:
+                    out.add(scen, "violation", "R3", "%s._run_search:generator" % cls.name,
+                            "the candidates are %s built in __init__ and stored in self.%s; _run_search reuses that copy, so after "
+                            "set_params(%s=...) (which only rebinds the public attribute) fit still searches the old candidates"
+                            % (show(frozen), cands.a[1], GENERATORS[frozen.a[0].a[0]][0]), ctx.loc(hit[0].module, hit[1]), "frozen-in-__init__")
+                    cands = None
+            if cands is None:
+                pass
+            elif is_call(cands) and isinstance(cands.a[0], T) and cands.a[0].op == "fn" and cands.a[0].a[0] in GENERATORS:
                 sig = GENERATORS[cands.a[0].a[0]]
                 args, kw = call_args(cands)
                 bound = dict(zip(sig, args))
@@ -983,5 +1051,5 @@ def run(ctx):
     out.flush()
     ctx.floor("R1", 36)
     ctx.floor("R2", 9)
-    ctx.floor("R3", 30)
+    ctx.floor("R3", 31)
     ctx.floor("R4", 70)
